@@ -124,8 +124,10 @@ func VerifC17_Ops() {
 			before, bok := s.Lookup(n)
 			// the copy is a stack of its own: pop it as far as it allows
 			// (however many scopes the copy has), then write to it
-			for pops := zzChoice("copypops", 3); pops > 0 && len(c.stack) > 1; pops-- {
-				c.Pop()
+			if zzBool("popcopy") {
+				for len(c.stack) > 1 {
+					c.Pop()
+				}
 			}
 			c.Set(n, -7)
 			c.Push(map[string]any{n: -8})
